@@ -511,19 +511,71 @@ def _rule_sweep_closed(prog, chk, R, gc, markObject, objfields, entry):
 
     idx = {id(s): i for i, s in enumerate(top)}
     pos_sel = idx[id(loop)]
-    # (A) seed
+    # (A) seed: every candidate whose destruction is observable — reachable at the moment or not: a garbage cycle may share such an
+    # object with a live variable, and breaking the cycle early or late then decides when (or whether) its destructor runs
+    dest = R.ev_method('destroyObject')
+    dmembers = set()
+    for lp_ in SX.walk(dest.body, into_lambdas=False):
+        if lp_.get('k') == 'for' and SX.is_node(lp_.get('inc')) and any(y.get('k') == 'member' and y.get('name') == 'base' for y in SX.walk(lp_['inc'])):
+            for i_ in SX.walk(lp_['body'], into_lambdas=False):
+                if i_.get('k') == 'if' and any(y.get('k') == 'continue' for y in SX.walk(i_['t'], into_lambdas=False)):
+                    for y in SX.walk(i_['c']):
+                        if y.get('k') == 'member' and 'RuntimeClass' in (y.get('q') or ''):
+                            dmembers.add(y['name'])
+    if len(dmembers) != 1:
+        raise AnalysisBroken('the class member destroyObject consults for "has a destructor body" was not resolved: %s' % sorted(dmembers))
+    D = next(iter(dmembers))
     seed = None
+    seed_why = 'no seeding loop found'
     for i, s in enumerate(top):
         if is_cand_loop(s) and i < pos_sel:
             b = body_list(s)
             v = s['var']['id']
             if len(b) == 1 and b[0].get('k') == 'if' and not b[0].get('e') and inserts(body_list(b[0]), v):
                 cj = _conj(b[0]['c'])
-                rest = [c for c in cj if not (is_not_marked(c, v) or is_cls_nonnull(c, v))]
-                if len(rest) == 1 and cls_flag(rest[0], v) == F:
+                if any(is_not_marked(c, v) for c in cj):
+                    seed_why = 'only unreachable objects are seeded: a reachable object with observable destruction that a garbage cycle also refers to dies when the cycle is broken or when ' \
+                               'its last variable goes, whichever the collector\'s timing makes later'
+                    continue
+                rest = [c for c in cj if not is_cls_nonnull(c, v)]
+                if len(rest) != 1:
+                    seed_why = 'seeding condition not understood'
+                    continue
+                pc = SX.strip(rest[0])
+                lam = None
+                if SX.is_node(pc) and pc.get('k') == 'opcall' and pc.get('op') == '()' and SX.is_node(pc['args'][0]) and pc['args'][0].get('k') == 'ref':
+                    for lf in gc.lambdas:
+                        for d in SX.walk(gc.body, into_lambdas=False):
+                            if d['k'] == 'var' and d['id'] == pc['args'][0]['id'] and d.get('init') is lf.node:
+                                lam = lf
+                if lam is None or SX.member_chain(SX.strip(pc['args'][1]))[1] != ['cls'] or not rooted_at(pc['args'][1], v):
+                    seed_why = 'the seeding condition is not a local closure applied to the candidate\'s class'
+                    continue
+                # the closure walks the base chain and answers true for the exclusion flag and for a destructor body
+                walks = [l_ for l_ in SX.walk(lam.body, into_lambdas=False) if l_.get('k') == 'for' and SX.is_node(l_.get('inc')) and
+                         any(y.get('k') == 'member' and y.get('name') == 'base' for y in SX.walk(l_['inc']))]
+                lb = lam.body['body'] if lam.body.get('k') == 'block' else [lam.body]
+                last_false = bool(lb) and lb[-1].get('k') == 'return' and SX.strip(lb[-1].get('e')).get('v') is False
+                atoms = set()
+                for l_ in walks:
+                    for i_ in SX.walk(l_['body'], into_lambdas=False):
+                        if i_.get('k') == 'if' and any(y.get('k') == 'return' and SX.strip(y.get('e')).get('v') is True for y in SX.walk(i_['t'], into_lambdas=False)):
+                            def disj(c):
+                                c = SX.strip(c)
+                                if SX.is_node(c) and c.get('k') == 'bin' and c['op'] == '||':
+                                    return disj(c['l']) + disj(c['r'])
+                                return [c]
+                            for dj in disj(i_['c']):
+                                ms = [y['name'] for y in SX.walk(dj) if y.get('k') == 'member' and 'RuntimeClass' in (y.get('q') or '')]
+                                if ms and not any(y.get('k') == 'un' and y.get('op') == '!' for y in SX.walk(dj)):
+                                    atoms.add(ms[0])
+                if walks and last_false and {F, D} <= atoms:
                     seed = i
+                else:
+                    seed_why = 'the closure must walk the base chain and answer true for %s and for %s (found: chain walk %s, atoms %s)' % (F, D, bool(walks), sorted(atoms))
     chk.ob('R11.5', gc, K.get('ln', gc.ln), seed is not None,
-           why + ': every unreachable object with %s is put into %s by a full loop over the candidates before the selection' % (F, K['name']), key='sweep-closed:seed')
+           why + ': every candidate whose class chain has %s or a destructor body (%s) is put into %s by a full loop over the candidates before the selection (%s)' % (
+               F, D, K['name'], 'ok' if seed is not None else seed_why), key='sweep-closed:seed')
     # (B) marking of the kept objects
     mark = None
     for i, s in enumerate(top):
